@@ -14,8 +14,14 @@ STUBS = ["HDF5 dataset + attrs -> the (array, attrs) pair returned by packSpecia
 KINDS = {
     "int": int, "int8": np.int8, "int16": np.int16, "int32": np.int32, "int64": np.int64,
     "uint8": np.uint8, "uint16": np.uint16, "uint32": np.uint32, "uint64": np.uint64,
-    "float": float, "float64": np.float64, "str": str,
+    "float": float, "float64": np.float64, "str": str, "bool": bool,
 }
+
+
+def kind_class(x):
+    """coarse numeric kind of a value or array: integer / real / text / truth value"""
+    k = np.asarray(x).dtype.kind
+    return {"i": "integer", "u": "integer", "f": "real", "U": "text", "S": "text", "b": "truth"}.get(k, k)
 
 
 def through_hdf5(data, attrs):
@@ -23,14 +29,16 @@ def through_hdf5(data, attrs):
     return np.array(data, copy=True), dict(attrs)
 
 
-@harness("C05", bounds="collections of 1..3 entries: value kind in {int, int8..int64, uint8..uint64, float, float64, str} "
-                       "x every pattern of unset (None) positions x entry shape in {scalar, 2-vector, 2x2 array}, all "
-                       "chosen symbolically (forked)", stubs=STUBS, max_paths=20000,
-         instances={"quick": [dict(n=2), dict(n=3)]})
-def collections_with_unset_entries_read_back(ctx, n):
+@harness("C05", bounds="collections of 1..3 entries: value kind in {int, int8..int64, uint8..uint64, float, float64, str, bool} "
+                       "x every pattern of unset (None) positions x entry shape in {scalar, 2-vector, 2x2 array} x which "
+                       "entry (if any) holds the falsy value of its kind (0, 0.0, '', False, all-zero array), all chosen "
+                       "symbolically (forked)", stubs=STUBS, max_paths=20000,
+         instances={"quick": [dict(n=2, falsy=True), dict(n=3, falsy=False)], "thorough": [dict(n=3, falsy=True)]})
+def collections_with_unset_entries_read_back(ctx, n, falsy):
     kind = ctx.choice("kind", list(KINDS))
     shape = ctx.choice("shape", ["scalar", "vec2", "mat22"])
     unset = [bool(ctx.bool("unset%d" % k)) for k in range(n)]
+    falsyAt = int(ctx.int("falsyAt", -1, n - 1 if falsy else -1))   # a stored value that is falsy (zero / empty text / False) is still a value
     typ = KINDS[kind]
     if kind == "str" and shape != "scalar":
         return
@@ -40,16 +48,18 @@ def collections_with_unset_entries_read_back(ctx, n):
             vals.append(None)
             continue
         base = 2 + 3 * k              # small values: 2 is deliberately among them
+        if k == falsyAt:
+            base = 0
         if kind == "str":
-            vals.append("s%d" % base)
+            vals.append("s%d" % base if base else "")
+        elif kind == "bool" and shape == "scalar":
+            vals.append(bool(base))
         elif shape == "scalar":
             vals.append(typ(base))
-        elif shape == "vec2":
-            vals.append(np.array([base, base + 1]).astype(typ) if typ not in (int, float) else
-                        np.array([typ(base), typ(base + 1)]))
         else:
-            vals.append(np.array([[base, base + 1], [base + 2, base + 3]]).astype(typ) if typ not in (int, float) else
-                        np.array([[typ(base), typ(base + 1)], [typ(base + 2), typ(base + 3)]]))
+            cells = [base, base + 1] if shape == "vec2" else [[base, base + 1], [base + 2, base + 3]]
+            a = np.array(cells) * (0 if k == falsyAt else 1)          # the falsy entry is an all-zero array
+            vals.append(a.astype(typ) if typ not in (int, float) else a.astype(np.dtype(typ)))
     if all(unset):
         return                         # all-unset parameters are not written at all
     if not any(unset):
@@ -80,6 +90,7 @@ def collections_with_unset_entries_read_back(ctx, n):
             b = back[k]
             same = (b is not None) and np.shape(b) == np.shape(vals[k]) and bool(np.all(np.asarray(b) == np.asarray(vals[k])))
             ctx.check("entry %d reads back with the same value and shape" % k, bool(same))
+            ctx.check("entry %d reads back with the same numeric kind" % k, b is not None and kind_class(b) == kind_class(vals[k]))
 
 
 @harness("C05", bounds="collections of 1..3 dictionaries str->float with symbolic (forked) key-presence patterns over "
@@ -106,3 +117,45 @@ def dictionaries_of_numbers_read_back(ctx, n):
         if ctx.canary and k == n - 1 and "b" in dicts[k] and "c" not in dicts[k]:
             got["c"] = 0.0
         ctx.check("dictionary %d reads back with the same keys and values" % k, got == dicts[k])
+
+
+# what one (object, key) slot of a dictionary-valued parameter may hold; every one except "absent" is a stored number
+DICT_SLOT = {"absent": None, "regular": 1.5, "zero": 0.0, "negzero": -0.0, "intzero": 0, "npzero": np.float64(0.0),
+             "negative": -2.5, "tiny": 1e-300}
+
+
+@harness("C05", bounds="collections of 1..2 dictionaries str->number over 2..3 keys; every (object, key) slot symbolically "
+                       "one of: key absent, 1.5, 0.0, -0.0, int 0 (and, where rich, numpy 0.0, -2.5, 1e-300): all "
+                       "5^slots / 8^slots patterns, forked", stubs=STUBS, max_paths=50000,
+         instances={"quick": [dict(n=1, nkeys=2, rich=True), dict(n=2, nkeys=2, rich=False)],
+                    "thorough": [dict(n=1, nkeys=3, rich=True), dict(n=2, nkeys=3, rich=False)]})
+def dictionary_entries_read_back_whatever_their_value(ctx, n, nkeys, rich):
+    """a key is gone after reading only if it was absent (NaN is the documented 'absent' marker; zero is a value)"""
+    keys = ["a", "b", "c"][:nkeys]
+    slots = list(DICT_SLOT)
+    if not rich:
+        slots = slots[:5]
+    dicts = []
+    for k in range(n):
+        d = {}
+        for key in keys:
+            what = ctx.choice("slot_%d_%s" % (k, key), slots)
+            if what != "absent":
+                d[key] = DICT_SLOT[what]
+        dicts.append(d)
+    arr = np.empty(n, dtype=object)
+    for k, d in enumerate(dicts):
+        arr[k] = d
+    if not any(dicts):
+        return
+    data, attrs = packSpecialData(arr, "verifDict")
+    ctx.check("stored array is not an object array", data.dtype != object)
+    back = unpackSpecialData(*through_hdf5(data, attrs), "verifDict")
+    ctx.check("one dictionary per object", len(back) == n)
+    for k in range(n):
+        got = dict(back[k])
+        if ctx.canary and k == n - 1 and dicts[k].get("a") == 0 and "b" not in dicts[k]:
+            got.pop("a")
+        ctx.check("dictionary %d reads back with the same keys" % k, sorted(got) == sorted(dicts[k]))
+        ctx.check("dictionary %d reads back with the same values" % k,
+                  all(key in got and float(got[key]) == float(v) for key, v in dicts[k].items()))
